@@ -1258,6 +1258,28 @@ template <class D> struct Hist {
       bd.use_guard = t.pick(3) == 0;
       bd.guard = constraint(dummy);
     }
+    // (tail choice, one chain in eight) the ping-pong loop: `if (*) a := b + c1 else b := a + c2`, taken
+    // alternately, with a delay of at least two -- two variables tied by explicit differences whose
+    // bounds are pushed one per iteration (where closing the left operand of a widening re-derives
+    // the bound that the previous widening dropped)
+    bool pingpong = false;
+    {
+      unsigned pp = t.tail_u8();
+      if ((pp & 7) == 3 && u.ints.size() >= 2) {
+        pingpong = true;
+        unsigned ia = (pp >> 3) % (unsigned)u.ints.size(), ib = (ia + 1 + ((pp >> 5) % ((unsigned)u.ints.size() - 1))) % (unsigned)u.ints.size();
+        const var_t &a = u.ints[ia], &b = u.ints[ib];
+        bodies.assign(2, Body());
+        nb = 2;
+        bodies[0].asg.push_back({a, lin_t(b) + lin_t(z_number(1 + (int64_t)((pp >> 6) & 1)))});
+        bodies[1].asg.push_back({b, lin_t(a) + lin_t(z_number(1 + (int64_t)((pp >> 7) & 1)))});
+        bodies[0].use_guard = bodies[1].use_guard = false;
+        bodies[0].guard = bodies[1].guard = cst_t::get_true();
+        if (delay < 2)
+          delay = 2 + (pp >> 4) % 2;
+        R().cls("chain_pingpong");
+      }
+    }
     ctx.log << "chain: thresholds=" << nthr << " delay=" << delay << " join_first=" << with_join << " queries=" << with_queries << " bounded_start=" << bounded_start;
     for (unsigned q = 0; q < nb; q++) {
       ctx.log << "\n  body" << q << ":";
@@ -1274,6 +1296,8 @@ template <class D> struct Hist {
       D y(x);
       std::vector<State> wy;
       unsigned choice = t.pick(nb + 1);
+      if (pingpong)
+        choice = it % 2;
       if (choice == nb) {
         // an arbitrary further value: a box (and a difference) around a decoded state
         independent++;
